@@ -36,6 +36,7 @@ func runC12(c *Ctx) {
 	c.copyRule("sbom.(*Person).Copy", "Person")
 	c.copyRule("sbom.(*ExternalReference).Copy", "ExternalReference")
 	c.copyRule("sbom.(*NodeList).Copy", "NodeList")
+	madeWithLengthThenAppended(c, "made-with-length-then-appended", pkgFilter(c.reachDecls("made-with-length-then-appended", "sbom.(*Node).Copy", "sbom.(*NodeList).Copy", "sbom.(*Person).Copy", "sbom.(*ExternalReference).Copy", "sbom.(*Edge).Copy"), "sbom."))
 	c.floor("copy-field-exhaustive", 43, "26+3+6+5+3 schema fields")
 	aliasRules(c)
 	// "compares equal to its source": the loops a copy is built with take every element
@@ -88,6 +89,7 @@ func runC14(c *Ctx) {
 	c.diffRule("sbom.(*Node).Diff")
 	c.floor("diff-stanza", 26, "26 Node fields")
 	diffHelpers(c)
+	diffKeysAreEncodings(c)
 	// completeness against Equal: a date at the epoch is a date for the equality encoding, so it is
 	// one for the diff
 	timestampPresenceRule(c, "timestamp-presence-by-nil", pkgFilter(c.reachDecls("timestamp-presence-by-nil", "sbom.(*Node).Diff"), "sbom.diff", "sbom.(*Node).Diff"))
